@@ -310,32 +310,32 @@ open Typedpy.Emit Typedpy.PyGram
 
 /-- every well-formed expression tree prints to text that lexes to exactly its token sequence
     (any nesting depth, any string literals) … -/
-theorem expr_tokens (X : Ora) (pr : Char → Bool) (e : PyExpr) (h : wf e = true) (rest : List Char)
+theorem expr_tokens (X : Ora) (pr : Char → Bool) (e : PyExpr) (h : wf X e = true) (rest : List Char)
     (hr : DelimHead rest) (d : Nat) (ind : List Nat) :
     lex X ⟨d, ind⟩ .mid (render pr e ++ rest) = prepend (toks e) (lex X ⟨d, ind⟩ .mid rest) :=
   lex_expr X pr e h d ind rest hr
 
 /-- … and that token sequence is an expression of the grammar, in every context -/
-theorem expr_parses (e : PyExpr) (h : wf e = true) (σ : List Frame) (c : Bool) (φ : Phase) (rest : List Tok)
+theorem expr_parses (X : Ora) (e : PyExpr) (h : wf X e = true) (σ : List Frame) (c : Bool) (φ : Phase) (rest : List Tok)
     (hφ : φ ≠ .expr) :
     parse ⟨σ, .operand c false, φ, false⟩ (toks e ++ rest) = parse ⟨σ, .afterOp (endsStr e), φ, false⟩ rest :=
-  parse_expr e h σ c φ rest hφ
+  parse_expr X e h σ c φ rest hφ
 
 /-- the expression `convert_to_field_code` emits for ANY schema whose `$ref` / property names are
     identifiers (property names distinct as keyword arguments and not `__debug__`) and whose enum
     members / defaults are JSON values is well-formed — every keyword combination, any depth -/
-theorem field_code_wf (O : EOra) (hO : OraOk O) (s : Schema) (d : Option PyVal) (h : emitOk s d = true) :
-    wf (schemaExpr O s d) = true :=
-  schemaExpr_wf O hO s d h
+theorem field_code_wf (X : Ora) (O : EOra) (hO : OraOk O) (s : Schema) (d : Option PyVal) (h : emitOk X s d = true) :
+    wf X (schemaExpr O s d) = true :=
+  schemaExpr_wf X O hO s d h
 
 /-- integers are printed as decimal literals of the subset (no leading zeros), every `Nat` -/
 theorem nat_literal (n : Nat) : isNumText (natText n) = true := natText_num n
 
 /-- the tokens of the emitted module -/
 theorem emitted_module_tokens (X : Ora) (O : EOra) (hO : OraOk O) (write : Bool) (defs : List ClassSrc)
-    (main : ClassSrc) (hd : ∀ c ∈ defs, classSrcOk c = true) (hm : classSrcOk main = true) :
+    (main : ClassSrc) (hd : ∀ c ∈ defs, classSrcOk X c = true) (hm : classSrcOk X main = true) :
     lex X lctx0 (.bol 0) (moduleText O write defs main) = .ok (modToks O defs main) :=
-  lex_module X O write defs main (fun c hc => classOk_of_src O hO c (hd c hc)) (classOk_of_src O hO main hm)
+  lex_module X O write defs main (fun c hc => classOk_of_src X O hO c (hd c hc)) (classOk_of_src X O hO main hm)
 
 /-- the full statement: the module emitted for ANY definitions and main schema compiles -/
 def always_compiles_statement : Prop :=
@@ -344,29 +344,30 @@ def always_compiles_statement : Prop :=
 
 /-- the emitted text never contains a NUL or a carriage return (the only way in would be a NUL in a
     description: `repr` escapes both, `_docstring_text` escapes CR) -/
-theorem emitted_module_clean (O : EOra) (hO : OraOk O) (write : Bool) (defs : List ClassSrc) (main : ClassSrc)
-    (hd : ∀ c ∈ defs, classSrcOk c = true) (hm : classSrcOk main = true) :
+theorem emitted_module_clean (X : Ora) (O : EOra) (hO : OraOk O) (write : Bool) (defs : List ClassSrc) (main : ClassSrc)
+    (hd : ∀ c ∈ defs, classSrcOk X c = true) (hm : classSrcOk X main = true) :
     textClean (moduleText O write defs main) = true :=
-  moduleText_clean O write defs main (fun c hc => classOk_of_src O hO c (hd c hc)) (classOk_of_src O hO main hm)
+  moduleText_clean X O write defs main (fun c hc => classOk_of_src X O hO c (hd c hc)) (classOk_of_src X O hO main hm)
 
 /-- PARTIAL: the emitted module is accepted by the recogniser for ALL definition lists and main
     schemas (any depth, any strings in patterns / enums / defaults / required / descriptions) with
-    the decidable exclusions `classSrcOk` (class, `$ref` and property names are ASCII identifiers
-    that are not keywords — property names also not `__debug__` and distinct as keyword arguments;
+    the decidable exclusions `classSrcOk` (class, `$ref` and property names are identifiers (ASCII letters / digits / `_`, and non-ASCII characters
+    for which the oracle `X` = `str.isidentifier` says so) that are not keywords — property names also not `__debug__` and distinct as keyword arguments;
     enum members and defaults are JSON values; no NUL in a description) and `nestOk` (bracket
     nesting within CPython's 200 levels); `OraOk`: `repr(float)` answers with decimal literals -/
 theorem emitted_module_accepted_partial (X : Ora) (O : EOra) (hO : OraOk O) (write : Bool)
     (defs : List ClassSrc) (main : ClassSrc)
-    (hd : ∀ c ∈ defs, classSrcOk c = true) (hm : classSrcOk main = true)
+    (hd : ∀ c ∈ defs, classSrcOk X c = true) (hm : classSrcOk X main = true)
     (hnest : nestOk X (moduleText O write defs main) = true) :
     recognise X (moduleText O write defs main) = .accept :=
-  recognise_module X O write defs main (fun c hc => classOk_of_src O hO c (hd c hc))
-    (classOk_of_src O hO main hm) (emitted_module_clean O hO write defs main hd hm) hnest
+  recognise_module X O write defs main (fun c hc => classOk_of_src X O hO c (hd c hc))
+    (classOk_of_src X O hO main hm) (emitted_module_clean X O hO write defs main hd hm) hnest
 
 /-- a concrete oracle for the examples: every non-ASCII character printable, every float `1.5` -/
 def exOra : EOra := ⟨fun _ => true, fun _ => ['1', '.', '5']⟩
-theorem exOra_ok : OraOk exOra := fun _ => by
-  show wf (floatExpr ['1', '.', '5']) = true
+theorem exOra_ok : OraOk exOra := fun X _ => by
+  show wf X (.num ['1', '.', '5']) = true
+  simp only [wf]
   decide
 
 def objOf (name : String) : Schema := .obj [(name, .num true none none none false)] [] (some []) true
@@ -414,7 +415,7 @@ set_option maxRecDepth 100000 in
     positional array, enum with string / negative int / None / bool / nested list, map, combinators,
     list/dict default behind `lambda:` satisfies the side conditions and is accepted -/
 theorem accepted_example :
-    classSrcOk exDef = true ∧ classSrcOk exMain = true ∧
+    classSrcOk Ora.ascii exDef = true ∧ classSrcOk Ora.ascii exMain = true ∧
     textClean (moduleText exOra true [exDef] exMain) = true ∧
     nestOk Ora.ascii (moduleText exOra true [exDef] exMain) = true ∧
     recognise Ora.ascii (moduleText exOra true [exDef] exMain) = .accept := by decide
